@@ -352,11 +352,12 @@ def rule_alloc_grow(ck, facts):
     ck.require(R, commit is not None and not commit[1] and commit[0] == ("bin", "add", ("leaf", "ptr"), ("leaf", "size")), "commit|end", "the committed allocation pointer is not pointer + size on every path", f.where())
 
 
-# admission guards of the type checker whose predicate carries a run-time safety argument: (error variant, predicate
-# that must control its construction, why).  Confirmed by reading typing.rs; the predicate is the *deep* one.
-ADMISSION = [
-    ("NonPrimitiveInFeed", "types::Type::contains_function", "the `self` cell is zero-initialised and its content is cloned/closed as a closure handle when its type contains a function anywhere (tuple / record / union member), so a shallow test admits programs that use handle 0"),
-]
+def load_admission():
+    import os
+    import tomllib
+    p = os.path.join(os.path.dirname(os.path.dirname(os.path.abspath(__file__))), "tables", "admission.toml")
+    with open(p, "rb") as f:
+        return [(g["error"], g["predicate"], g["why"]) for g in tomllib.load(f).get("guard", [])]
 
 
 def rule_admission(ck, facts):
@@ -364,7 +365,9 @@ def rule_admission(ck, facts):
     R = "C03.admission"
     ck.rule(R, "each type-checker diagnostic that keeps unsafe programs out is raised under the deep type predicate its safety argument needs: the construction of the error is control-dependent on a call of that predicate (nearest dominating branches)")
     lang = facts.crate(roles.LANG)
-    for variant, pred, why in ADMISSION:
+    table = load_admission()
+    ck.floor(R, "admission_guards", len(table), 2)
+    for variant, pred, why in table:
         sites = []
         for f in lang.fns:
             if "::compiler::typing" not in f.path or f.kind == "promoted" or roles.is_derived(f):
